@@ -7,7 +7,8 @@ for l in open('/verif/seeded/MATRIX.txt'):
     if len(p) >= 3:
         mat.setdefault(p[0], []).append((p[1], p[2], ' '.join(p[3:])))
 out = ["<!-- SEC10-BEGIN -->\n## 10. Seeded changes (from fresh sub-agents) and which checks catch them\n\n"]
-out.append('''Two rounds of fresh sub-agents were each given only the JSON record of one property and a scratch
+out.append('''Five rounds of fresh sub-agents (rounds 4 and 5 with requests for changes that need long windows, long streams,
+rare secondary parameters, tiny or huge units, or a narrowed counter) were each given only the JSON record of one property and a scratch
 git worktree of /repo (nothing from /verif), and asked for a change that breaks the property while
 compiling and passing the 43 baseline tests, with a demonstration. Every change below was confirmed in a
 scratch worktree (`tools_ingest_mutant.sh`: patch applies, suite 43/43 with the change, demonstration
@@ -43,6 +44,13 @@ What the misses taught:
 * C06a was caught by C06 but not by C08 until the warm-up clause also fed zero and sum-zero streams.
 * C12a (a level-relative flatness guard in Vsct) needs offsets ~2^30 times the spread: the C12 generator draws offsets up to 2^33 grid units.
 * C18a (Max's queue is only trimmed on a falling value) is invisible on noise: C18 drives seven stream classes, among them ramps, plateaus and staircases.
+* Round 5 (16 changes, 12 caught at once). The four misses and what was added:
+  C13e and C08e (a counter narrowed to u16 that saturates / wraps after 65 535 updates) - the `ultra` clauses: 135 000-value
+  streams in the quick tier for every property with a per-step or per-checkpoint oracle (C01-C13, C15, C17), so that any view's
+  behaviour past 2^16 and 2^17 updates is compared with its definition, its twin, its clone, its bounds;
+  C12e (Roc treats |x| < epsilon as zero) - the f64 scale clause now draws a = 2^k with k in -200..200 (2 in 5 cases) instead of -30..30;
+  C10e (Ema::with_alpha clamps only upward moves when alpha > N+1) - C10 now includes Ema::with_alpha (weights j/8, j = 1..15) and
+  Alma::new_custom among the linear views.
 * C07b (WelfordOnline's flat-window reset keeps the residue of `mean`) is **not caught**: it needs a spike ~1e16 times the later level,
   and what it then breaks - Vsct's sharp bound, numerically (exact arithmetic unaffected) - is inside the listed finding
   `C07/range/Vsct/f*|range|exact_ok`; inside C16's three-decade envelope its effect (1e-10 of the range) is below the 1e-6 tolerance.
